@@ -208,12 +208,14 @@ fn c09(out: &mut Out, decl: &Value) {
     {
         let mut mism = vec![];
         let mut rng = Rng::new(77);
-        let first = |t: usize, n: u32| -> Option<(u32, String)> { match t {
+        // a panicking lookup is the answer "<panic>", which is never an entry
+        let first = |t: usize, n: u32| -> Option<(u32, String)> { catch(|| match t {
             0 => grammar::CoreInstructionTable::lookup_opcode(n as u16).map(|e| (e.opcode as u32, e.opname.to_string())),
             1 => grammar::GlslStd450InstructionTable::lookup_opcode(n).map(|e| (e.opcode, e.opname.to_string())),
-            _ => grammar::OpenCLStd100InstructionTable::lookup_opcode(n).map(|e| (e.opcode, e.opname.to_string())) } };
+            _ => grammar::OpenCLStd100InstructionTable::lookup_opcode(n).map(|e| (e.opcode, e.opname.to_string())) }).unwrap_or(Some((u32::MAX, "<panic>".to_string()))) };
         // reference answers, each table swept on its own
         let refs: Vec<Vec<Option<(u32, String)>>> = (0..3).map(|t| (0..256u32).map(|n| first(t, n)).collect()).collect();
+        for t in 0..3 { for n in 0..256usize { if matches!(&refs[t][n], Some((_, s)) if s == "<panic>") && mism.len() < 5 { mism.push(json!([t, n, "<panic>", "an entry or None"])); } } }
         for round in 0..6000 {
             let n = if round < 768 { (round / 3) as u32 } else { rng.below(256) as u32 };
             let t = if round < 768 { round % 3 } else { rng.below(3) };
@@ -228,8 +230,8 @@ fn c09(out: &mut Out, decl: &Value) {
         let mut wrong = vec![];
         let probe: Vec<u32> = (0..4096u32).chain([65535, 65536, 1 << 20, u32::MAX]).collect();
         for n in probe {
-            let r = if is_gl { grammar::GlslStd450InstructionTable::lookup_opcode(n).map(|e| e.opcode) } else { grammar::OpenCLStd100InstructionTable::lookup_opcode(n).map(|e| e.opcode) };
-            if let Some(op) = r { found.push(n); if op != n { wrong.push(n); } }
+            let r = catch(|| if is_gl { grammar::GlslStd450InstructionTable::lookup_opcode(n).map(|e| e.opcode) } else { grammar::OpenCLStd100InstructionTable::lookup_opcode(n).map(|e| e.opcode) });
+            match r { Ok(Some(op)) => { found.push(n); if op != n { wrong.push(n); } } Ok(None) => {} Err(_) => wrong.push(n) } // a panic is a wrong answer
         }
         out.ev(json!({"ev": "lookup", "table": table, "range": 4096, "found": found, "wrong": wrong}));
         // get(GLOp / CLOp) for every declared extended opcode, names agree with the enum
